@@ -22,6 +22,7 @@ CATALOGUE = [
     ("res_str_u8", "ResStrU8", "ResultRegion<StringRegion, MirrorRegion<u8>>", "Ok(shape-rotation string) or Err(any u8)"),
     ("tup_str_u16", "TupStrU16", "TupleABRegion<StringRegion, MirrorRegion<u16>>", "(shape-rotation string, any u16)"),
     ("slice_u8", "SliceU8", "SliceRegion<MirrorRegion<u8>>", "<=3 symbolic bytes; length symbolic in C01 round trips, else rotation 2,3,0,1"),
+    ("slice_usize_opt", "SliceUsizeOpt", "SliceRegion<MirrorRegion<usize>, IndexOptimized> (the stored offsets are the pushed values)", "2 unconstrained usize values"),
     ("slice_str", "SliceStr", "SliceRegion<StringRegion>", "row of 2,1,0 short strings (rotation), symbolic contents"),
     ("slice_cip_str", "SliceCipStr", "SliceRegion<ConsecutiveIndexPairs<StringRegion, IndexOptimized>, IndexOptimized>", "row of 2,1,0 short strings (rotation), symbolic contents"),
     ("slice_slice_u8", "SliceSliceU8", "SliceRegion<SliceRegion<MirrorRegion<u8>>>", "2,1,0 ragged rows (rotation) of 2,1,0 symbolic bytes"),
